@@ -336,7 +336,7 @@ class Cache:
 FAULTS = ["err_big", "trunc_err", "trunc_close", "timeout", "close_now", "bad_len_small", "bad_len_big", "bad_len_type", "bad_type",
           "bad_version", "bad_flags", "dup_announce", "unknown_withdraw", "eod_session", "cr_session", "spurious_reset",
           "err_nodata", "err_unsupported_ver", "err_other", "unexpected_pdu", "prefix_len_big", "notify_inside", "garbage",
-          "announce_withdraw_same", "eod_v0_in_v1", "stop", "downgrade_error"]
+          "announce_withdraw_same", "eod_v0_in_v1", "stop", "downgrade_error", "intr_before"]
 
 
 def client_waiting(trace_lines):
@@ -380,7 +380,7 @@ def build_conversation(rnd, nex=6, fault_p=0.45, cfg=None, chunking=None, faults
     if pre:
         for _ in range(rnd.randint(0, 3)):
             it = rnd.choice([x for x in cache.pool if not (x[0] == "k" and x[1][1] >= LATE_KEYS)] or cache.pool[:1])
-            src = rnd.randint(2, 3)
+            src = rnd.choice([2, 3, 0])          # 0: added by the application itself (socket NULL)
             line = ("pre pfx %s %s %d %d %d %d" % (it[1] + (src,))) if it[0] == "p" else ("pre key %d %d %d" % (it[1] + (src,)))
             if line not in s.pre:
                 s.pre.append(line)
@@ -530,6 +530,10 @@ def build_conversation(rnd, nex=6, fault_p=0.45, cfg=None, chunking=None, faults
             deliver(b"".join(alt))
         elif f == "err_unsupported_ver":
             deliver(error_pdu(rnd.choice([0, 0, 1, 2]), 4, q["raw"], b""))
+        elif f == "intr_before":
+            # the receive call is interrupted (TR_INTR) before the first byte of the answer; the answer follows
+            s.err(3)
+            deliver(b)
         elif f == "downgrade_error":
             # "Unsupported Protocol Version" sent in the next lower version: the client downgrades and reconnects at once
             deliver(error_pdu(max(0, cache.ver - 1), 4, q["raw"], b""))
